@@ -234,7 +234,7 @@ func runC02(c c02Case, r *rep.Report) (key, msg string, stats map[string]int64) 
 			so.SetPingInterval(20 * time.Second)
 			so.SetPingTimeout(20 * time.Second)
 			w := rig.NewWorld(rig.Options{Server: so})
-			defer w.Shutdown()
+			defer w.Finish()
 			cfg := c02Cfg(c.Form)
 			cfg.NoAutoPong = true
 			cl, err := w.Connect(cfg)
